@@ -162,7 +162,7 @@ pub fn run(ctx: &Ctx) -> Report {
          v5 publishes that fail validation (alias, Receive Maximum) before a valid retransmission; model = set of ids notified and not yet released. \
          non-trivial = some id is published at least twice with a reconnect, PUBREL, refusal or new session in between",
     );
-    let n = ctx.tier.pick(150_000, 2_000_000);
+    let n = ctx.tier.pick(400_000, 2_000_000);
     let (st, v) = search(ctx, "c07.history", n, strategy, test);
     rep.absorb("histories", st, v, false);
     rep.assumptions.push("whole frames only (no chunking) so that one op is one PUBLISH; framing is C09's business".into());
